@@ -291,7 +291,8 @@ class MetadataGenerator:
 
 
         if len(types) > 1:
-            if Unknown in types:
+            # (Unknown can be listed more than once: directly and taken out of an Optional member)
+            while Unknown in types:
                 types.remove(Unknown)
 
             optional = False
